@@ -11,6 +11,9 @@
 //! O failures are shrunk (selections / directives / fragments / definitions deleted, spreads and inline fragments
 //! unfolded while the failure persists) and the signature is computed from the minimal document.
 #![allow(dead_code)]
+/// the harness's own rendering of a schema model as an introspection result (written for C15, used by C09 too)
+#[path = "../c15/json.rs"]
+mod ijson;
 use nvh::gen::*;
 use nvh::gm::*;
 use nvh::real::*;
@@ -31,11 +34,15 @@ pub struct Case {
     pub config: String,
     /// documents that are NOT spec-valid (FieldsInSetCanMerge) but pass `check`: K only
     pub invalid_by_merge_rule: bool,
+    /// `Some(text)`: the schema is given to the real code as an INTROSPECTION RESULT (`schema: x.json`), loaded the way
+    /// the CLI does (`nvh::real::with_schema_json`: reader + built-in scalars + `type_system_to_ast`); `sdl` is then only
+    /// the readable form of the same schema
+    pub schema_json: Option<String>,
 }
 
 impl Case {
     pub fn to_json(&self) -> Value {
-        json!({"sdl_files": self.sdl, "abstract_schema": self.abstract_schema, "doc": self.doc, "config": self.config, "invalid_by_merge_rule": self.invalid_by_merge_rule})
+        json!({"sdl_files": self.sdl, "abstract_schema": self.abstract_schema, "doc": self.doc, "config": self.config, "invalid_by_merge_rule": self.invalid_by_merge_rule, "schema_json": self.schema_json})
     }
     pub fn from_json(v: &Value) -> Case {
         Case {
@@ -47,6 +54,7 @@ impl Case {
             doc: v["doc"].as_str().unwrap_or("").to_string(),
             config: v["config"].as_str().unwrap_or(DEFAULT_CONFIG).to_string(),
             invalid_by_merge_rule: v["invalid_by_merge_rule"].as_bool().unwrap_or(false),
+            schema_json: v["schema_json"].as_str().map(|s| s.to_string()),
         }
     }
 }
@@ -103,7 +111,7 @@ pub fn prepare(case: &Case) -> Prep {
             Err(e) => return Prep::Rejected(e),
         },
     };
-    let r = with_schema(&case.sdl, |resolved, schema| {
+    let stages = |resolved: &nitrogql_ast::TypeSystemDocument, schema: &graphql_type_system::Schema<std::borrow::Cow<str>, nitrogql_ast::base::Pos>| {
         let tsdoc = from_real_tsdoc(resolved).to_sexp();
         let schema_text = print_schema_types(resolved, &config);
         let o = with_operation(schema, &doc_text, 1, |d, diags| {
@@ -115,7 +123,11 @@ pub fn prepare(case: &Case) -> Prep {
             Ok((model, printed))
         });
         (tsdoc, schema_text, o)
-    });
+    };
+    let r = match &case.schema_json {
+        Some(text) => with_schema_json(text, stages),
+        None => with_schema(&case.sdl, stages),
+    };
     let (tsdoc, schema_text, o) = match r {
         Ok(x) => x,
         Err(s) => return Prep::Rejected(format!("schema stage: {s:?}").chars().take(200).collect()),
@@ -733,9 +745,19 @@ impl<'a> Runner<'a> {
             self.rep.count("o-failures-not-shrunk(same direction, value kind and feature set as failures already shrunk; not reported)");
             return;
         };
-        let sig = format!("{}:{}:{}", fmin.direction, doc_features(&min_doc, &fmin.direction), fmin.kind);
+        let mut sig = format!("{}:{}:{}", fmin.direction, doc_features(&min_doc, &fmin.direction), fmin.kind);
+        let mut what = fmin.what.clone();
+        // a failure seen with the schema given as an introspection result: does the minimal document fail with the same
+        // schema given as SDL too? If not, the class is one of the introspection route (reader / `type_system_to_ast`)
+        if case.schema_json.is_some() {
+            let sdl_case = Case { schema_json: None, ..case.clone() };
+            if self.o_fails(&sdl_case, &min_doc, &fmin.direction).is_none() {
+                sig.push_str(":introspection-json-route-only");
+                what.push_str(" [schema given as introspection result (`schema: x.json`); the same schema given as SDL does not fail]");
+            }
+        }
         let min_case = Case { doc: doc_text(&min_doc), ..case.clone() };
-        self.rep.fail("O", &sig, &format!("{} [minimal document: {}]", fmin.what, min_case.doc.replace('\n', " ")), min_case.to_json());
+        self.rep.fail("O", &sig, &format!("{} [minimal document: {}]", what, min_case.doc.replace('\n', " ")), min_case.to_json());
     }
 
     /// K and O on a batch of cases
@@ -877,9 +899,53 @@ pub fn corpus() -> Vec<Case> {
         ("query Q { me { __typename: __typename __typename } }", false),
     ];
     docs.into_iter()
-        .map(|(d, inv)| Case { sdl: vec![CORPUS_SDL.into()], abstract_schema: None, doc: d.into(), config: CORPUS_CONFIG.into(), invalid_by_merge_rule: inv })
+        .map(|(d, inv)| Case { sdl: vec![CORPUS_SDL.into()], abstract_schema: None, doc: d.into(), config: CORPUS_CONFIG.into(), invalid_by_merge_rule: inv, schema_json: None })
         .chain(ext_corpus())
+        .chain(wrapper_corpus())
         .collect()
+}
+
+const BUILTIN_DIRECTIVES: [&str; 5] = ["skip", "include", "deprecated", "specifiedBy", "nitrogql_ts_type"];
+
+/// the abstract model of an SDL text (for rendering it as an introspection result): the real front end's resolved
+/// document without the built-in items
+fn model_of_sdl(sdl: &str) -> Option<SchemaModel> {
+    let doc = with_schema(&[sdl.to_string()], |resolved, _| from_real_tsdoc(resolved)).ok()?;
+    let items: Vec<TsItem> = doc
+        .items
+        .into_iter()
+        .filter(|i| match i {
+            TsItem::TypeDef(t) => !(BUILTIN_SCALARS.contains(&t.name.as_str()) || t.name.starts_with("__")),
+            TsItem::DirectiveDef(d) => !BUILTIN_DIRECTIVES.contains(&d.name.as_str()),
+            _ => true,
+        })
+        .collect();
+    Some(SchemaModel { doc: TsDoc { items }, query: "Query".into(), mutation: None, subscription: None })
+}
+
+/// every list / non-null wrapper shape up to depth 3 on output fields (scalar, enum, object, interface targets), as SDL and
+/// as introspection result
+fn wrapper_corpus() -> Vec<Case> {
+    let shapes = ["T", "T!", "[T]", "[T!]", "[T]!", "[T!]!", "[[T]]", "[[T!]]", "[[T]!]", "[[T]]!", "[[T!]!]", "[[T!]]!", "[[T]!]!", "[[T!]!]!", "[[[T]]]", "[[[T!]]!]", "[[[T]!]]!", "[[[T!]!]!]!"];
+    let mut fields = String::new();
+    let mut sel = String::new();
+    for (i, sh) in shapes.iter().enumerate() {
+        fields.push_str(&format!("  i{i}: {}\n  e{i}: {}\n  o{i}: {}\n  n{i}: {}\n", sh.replace('T', "Int"), sh.replace('T', "Role"), sh.replace('T', "Leaf"), sh.replace('T', "Node")));
+        sel.push_str(&format!(" i{i} e{i} o{i} {{ v }} n{i} {{ __typename id }}"));
+    }
+    let sdl = format!("type Query {{\n{fields}}}\ntype Leaf implements Node {{ id: ID! v: String }}\ninterface Node {{ id: ID! }}\nenum Role {{ ADMIN USER }}\n");
+    let docs = [format!("query Q {{{sel} }}"), "query Q { i6 i7 i9 o6 { v } o7 { id } n11 { ... on Leaf { v } } }".to_string()];
+    let mut out = vec![];
+    for d in docs {
+        let c = Case { sdl: vec![sdl.clone()], abstract_schema: None, doc: d, config: DEFAULT_CONFIG.into(), invalid_by_merge_rule: false, schema_json: None };
+        if let Some(m) = model_of_sdl(&sdl) {
+            if let Ok(text) = serde_json::to_string(&ijson::introspection_json(&m)) {
+                out.push(Case { schema_json: Some(text), ..c.clone() });
+            }
+        }
+        out.push(c);
+    }
+    out
 }
 
 /// schemas whose types join interfaces / gain fields and union members ONLY through `extend …` items, over two files
@@ -893,7 +959,7 @@ fn ext_corpus() -> Vec<Case> {
         "fragment F on Node { id label } query Q { node { ...F } }",
     ];
     docs.iter()
-        .map(|d| Case { sdl: vec![f1.into(), f2.into()], abstract_schema: None, doc: d.to_string(), config: DEFAULT_CONFIG.into(), invalid_by_merge_rule: false })
+        .map(|d| Case { sdl: vec![f1.into(), f2.into()], abstract_schema: None, doc: d.to_string(), config: DEFAULT_CONFIG.into(), invalid_by_merge_rule: false, schema_json: None })
         .collect()
 }
 
@@ -907,6 +973,53 @@ pub fn gen_case(rng: &mut Rng, rep: &mut Report) -> Case {
 /// fragments (inline and named) on EVERY interface that can apply under one or two composite root fields
 /// (`inject_interface_conditions`). With `hier = false` no additional random choice is drawn.
 pub fn gen_case_with(rng: &mut Rng, rep: &mut Report, hier: bool) -> Case {
+    gen_case_full(rng, rep, hier).0
+}
+
+/// the same case with the schema given as an INTROSPECTION RESULT (`schema: x.json`): the generator's merged model rendered
+/// by the harness's own `ijson::introspection_json`, read by the real reader the way the CLI composes it. Same document,
+/// same configuration (every custom scalar has a configuration entry — `@nitrogql_ts_type` does not exist on this route and
+/// `gen_case` never writes it), same abstract schema for the specification side. No random choice is drawn.
+pub fn json_twin(case: &Case, schema: &SchemaModel, rep: &mut Report) -> Option<Case> {
+    let text = serde_json::to_string(&ijson::introspection_json(schema)).ok()?;
+    rep.count("route:introspection-json-twin");
+    // wrapper shapes of the OUTPUT fields (what the reader has to rebuild from LIST / NON_NULL chains)
+    let mut shapes = BTreeSet::new();
+    for t in schema.types().filter(|t| matches!(t.kind, TypeKind::Object | TypeKind::Interface)) {
+        for f in &t.fields {
+            let (mut lists, mut adjacent) = (0, false);
+            let mut cur = &f.ty;
+            let mut prev_list = false;
+            loop {
+                match cur {
+                    Ty::Named(..) => break,
+                    Ty::List(i, _) => {
+                        lists += 1;
+                        if prev_list {
+                            adjacent = true;
+                        }
+                        prev_list = true;
+                        cur = i;
+                    }
+                    Ty::NonNull(i) => {
+                        prev_list = false;
+                        cur = i;
+                    }
+                }
+            }
+            shapes.insert(format!("feature:json-route:output-field:list-depth:{lists}"));
+            if adjacent {
+                shapes.insert("feature:json-route:output-field:directly-nested-lists([[T]]-style)".to_string());
+            }
+        }
+    }
+    for f in shapes {
+        rep.count(&f);
+    }
+    Some(Case { sdl: vec![schema.sdl()], schema_json: Some(text), ..case.clone() })
+}
+
+pub fn gen_case_full(rng: &mut Rng, rep: &mut Report, hier: bool) -> (Case, SchemaModel) {
     let cfg = GenCfg { hostile_text: false, descriptions: rng.chance(1, 3), iface_hierarchies: hier, ..GenCfg::default() };
     let schema = gen_schema(rng, &cfg);
     let (mut doc, features) = gen_doc(rng, &schema, &cfg);
@@ -1010,7 +1123,7 @@ pub fn gen_case_with(rng: &mut Rng, rep: &mut Report, hier: bool) -> Case {
     };
     // the schema the SPECIFICATION side uses: the generator's own merged model, never the real pipeline's output
     let abstract_schema = Some(with_builtin_scalars(schema.doc.clone()).to_sexp().to_line());
-    Case { sdl, abstract_schema, doc: doc_text(&doc), config: pc.yaml("s.graphql", "*.graphql", &[]), invalid_by_merge_rule: false }
+    (Case { sdl, abstract_schema, doc: doc_text(&doc), config: pc.yaml("s.graphql", "*.graphql", &[]), invalid_by_merge_rule: false, schema_json: None }, schema)
 }
 
 fn first_op_sel<'a>(doc: &'a mut Doc) -> Option<(&'a mut OpDef, String)> {
@@ -1350,13 +1463,20 @@ pub fn main_for(property: &str, which: &'static str) {
         let mut rng = Rng::new(args.seed);
         let n = if search { 1500 } else if which == "oracle.c01" { args.budget(300, 3000) } else { args.budget(220, 1500) };
         let mut batch = vec![];
+        // one generated case in `twin_every` is ALSO run with its schema given as an introspection result (no extra draw)
+        let twin_every = if which == "oracle.c01" { 4 } else { 6 };
         for i in 0..n {
-            let c = gen_case(&mut rng, r.rep);
+            let (c, schema) = gen_case_full(&mut rng, r.rep, false);
             if nontrivial(&c.doc) {
                 r.rep.nontrivial(&format!("{}\n{}", c.sdl.join("\n"), c.doc));
             }
             if i < 3 {
                 r.rep.sample(json!({"doc": c.doc, "schema_files": c.sdl.len(), "sdl_bytes": c.sdl.iter().map(|s| s.len()).sum::<usize>()}));
+            }
+            if i % twin_every == 1 {
+                if let Some(t) = json_twin(&c, &schema, r.rep) {
+                    batch.push(t);
+                }
             }
             batch.push(c);
             if batch.len() >= 50 {
@@ -1371,8 +1491,13 @@ pub fn main_for(property: &str, which: &'static str) {
         let n = if search { 400 } else if which == "oracle.c01" { args.budget(60, 500) } else { args.budget(40, 300) };
         let mut batch = vec![];
         for i in 0..n {
-            let c = gen_case_with(&mut rng, r.rep, true);
+            let (c, schema) = gen_case_full(&mut rng, r.rep, true);
             r.rep.count("origin:interface-hierarchy-stream");
+            if i % twin_every == 2 {
+                if let Some(t) = json_twin(&c, &schema, r.rep) {
+                    batch.push(t);
+                }
+            }
             if i < 2 {
                 r.rep.sample(json!({"stream": "interface-hierarchy", "doc": c.doc, "schema_files": c.sdl}));
             }
